@@ -81,48 +81,14 @@ func stateStores(c *eng.Ctx, fn *ssa.Function) map[ssa.Instruction]int64 {
 
 func runC08(c *eng.Ctx) {
 	p := c.P
+	putPublicationOrder(c)
 	ready := constOf(c, "models", "ReplicatorReadyState")
 	failure := constOf(c, "models", "ReplicatorFailureState")
 
 	// ---- 1c. the follower's next-index test and its append are one critical section -----------------------------------
 	// (the leader abandons a stream after a Recv error without waiting for the server side and re-sends the position on a new
 	// stream: two handler goroutines can offer the same position to one follower partition at once - F45)
-	c.Rule("ATOMIC", ptT+".ReplicaLog{next-index test + append}", func() {
-		f := c.Fn(ptT + ".ReplicaLog")
-		put := c.One(f, invokeOn("", "Put"), "Queue().Put(msg)")
-		reads := c.Some(f, invokeOn("", "AppendedSeq"), "Queue().AppendedSeq()")
-		nt := p.LookupType("replica", "partition")
-		st := nt.Underlying().(*types.Struct)
-		var mus []string
-		for i := 0; i < st.NumFields(); i++ {
-			t := st.Field(i).Type().String()
-			if t == "sync.Mutex" || t == "sync.RWMutex" {
-				mus = append(mus, ptT+"."+st.Field(i).Name())
-			}
-		}
-		ls := p.Locks(f, nil)
-		held, why := "", "no mutex of the partition is held over both"
-		for _, mu := range mus {
-			all := true
-			for _, r := range reads {
-				ok, w := ls.SameHold(r.Instr, put.Instr, mu, true)
-				if !ok {
-					all = false
-					why = mu[strings.LastIndex(mu, ".")+1:] + ": " + w
-				}
-			}
-			if all {
-				held = mu
-			}
-		}
-		c.Check(held != "", "test-and-append-one-hold", put.Instr, f, "the read of the follower's appended sequence that the offered index is tested against and the append happen in one hold of a partition mutex (two streams offering the same position append it once)", why)
-		// an index reset (the leader's handshake) is serialised with them
-		rf := c.Fn(ptT + ".ResetReplicaIndex")
-		set := c.One(rf, invokeOn("", "SetAppendedSeq"), "log.SetAppendedSeq(idx-1)")
-		if held != "" {
-			c.Check(p.Locks(rf, nil).At(set.Instr).HasField(held, true), "reset-under-the-same-mutex", set.Instr, rf, "ResetReplicaIndex moves the appended sequence under the mutex that ReplicaLog appends under", "not held")
-		}
-	})
+	replicaLogTestAndAppendAtomic(c)
 
 	// ---- 1/2. follower side ---------------------------------------------------------------------------
 	c.Rule("GUARD", ptT+".ReplicaLog", func() {
@@ -656,4 +622,45 @@ func runC08(c *eng.Ctx) {
 	})
 
 	c.Observe("remoteReplicator suspend: GetLiveNode and isSuspend CAS are not atomic with the online notification (possible lost wake-up) — liveness, not armed")
+}
+
+func replicaLogTestAndAppendAtomic(c *eng.Ctx) {
+	p := c.P
+	_ = p
+	c.Rule("ATOMIC", ptT+".ReplicaLog{next-index test + append}", func() {
+		f := c.Fn(ptT + ".ReplicaLog")
+		put := c.One(f, invokeOn("", "Put"), "Queue().Put(msg)")
+		reads := c.Some(f, invokeOn("", "AppendedSeq"), "Queue().AppendedSeq()")
+		nt := p.LookupType("replica", "partition")
+		st := nt.Underlying().(*types.Struct)
+		var mus []string
+		for i := 0; i < st.NumFields(); i++ {
+			t := st.Field(i).Type().String()
+			if t == "sync.Mutex" || t == "sync.RWMutex" {
+				mus = append(mus, ptT+"."+st.Field(i).Name())
+			}
+		}
+		ls := p.Locks(f, nil)
+		held, why := "", "no mutex of the partition is held over both"
+		for _, mu := range mus {
+			all := true
+			for _, r := range reads {
+				ok, w := ls.SameHold(r.Instr, put.Instr, mu, true)
+				if !ok {
+					all = false
+					why = mu[strings.LastIndex(mu, ".")+1:] + ": " + w
+				}
+			}
+			if all {
+				held = mu
+			}
+		}
+		c.Check(held != "", "test-and-append-one-hold", put.Instr, f, "the read of the follower's appended sequence that the offered index is tested against and the append happen in one hold of a partition mutex (two streams offering the same position append it once)", why)
+		// an index reset (the leader's handshake) is serialised with them
+		rf := c.Fn(ptT + ".ResetReplicaIndex")
+		set := c.One(rf, invokeOn("", "SetAppendedSeq"), "log.SetAppendedSeq(idx-1)")
+		if held != "" {
+			c.Check(p.Locks(rf, nil).At(set.Instr).HasField(held, true), "reset-under-the-same-mutex", set.Instr, rf, "ResetReplicaIndex moves the appended sequence under the mutex that ReplicaLog appends under", "not held")
+		}
+	})
 }
